@@ -6,6 +6,6 @@ CONSTANT Size = 2
 INIT PInit
 NEXT PNext
 CHECK_DEADLOCK FALSE
-CONSTANT VFuel = 6000
+CONSTANT VFuel = 2500
 INVARIANT PRefines
 INVARIANT PInside
